@@ -1251,3 +1251,7 @@ def const_value(prog, path):
     if b is not None and b.kind in ("const", "static"):
         return describe(prog, b, 0)
     return const_from_hir(prog, path)
+
+
+def desc_calls_named(desc, suffix):
+    return [c for c in desc_calls(desc) if c[1].endswith(suffix)]
